@@ -48,5 +48,46 @@ def dtcwt_fwd_rows_odd (r : Int) : Prop := ((r % (2 : Int)) ≠ (0 : Int))
 def dtcwt_fwd_cols_odd (c : Int) : Prop := ((c % (2 : Int)) ≠ (0 : Int))
 def dtcwt_fwd_rows_pad4 (r : Int) : Prop := ((r % (4 : Int)) ≠ (0 : Int))
 def dtcwt_fwd_cols_pad4 (c : Int) : Prop := ((c % (4 : Int)) ≠ (0 : Int))
+def nonsep_per_odd_rows (Ny : Int) : Prop := ((Ny % (2 : Int)) = (1 : Int))
+def nonsep_per_odd_cols (Nx : Int) : Prop := ((Nx % (2 : Int)) = (1 : Int))
+def nonsep_per_pad_y (Ly : Int) : Int := (Ly - (1 : Int))
+def nonsep_per_pad_x (Lx : Int) : Int := (Lx - (1 : Int))
+def nonsep_per_stride_y  : Int := (2 : Int)
+def nonsep_per_stride_x  : Int := (2 : Int)
+def nonsep_per_shift_y (Ly : Int) : Int := (-(Ly / (2 : Int)))
+def nonsep_per_shift_x (Lx : Int) : Int := (-(Lx / (2 : Int)))
+def nonsep_per_fold_width_y (Ly : Int) (Ny : Int) : Int := (Ly / (2 : Int))
+def nonsep_per_fold_from_y (Ly : Int) (Ny : Int) : Int := (Ny / (2 : Int))
+def nonsep_per_fold_to_y (Ly : Int) (Ny : Int) : Int := ((Ny / (2 : Int)) + (Ly / (2 : Int)))
+def nonsep_per_fold_width_x (Lx : Int) (Nx : Int) : Int := (Lx / (2 : Int))
+def nonsep_per_fold_from_x (Lx : Int) (Nx : Int) : Int := (Nx / (2 : Int))
+def nonsep_per_fold_to_x (Lx : Int) (Nx : Int) : Int := ((Nx / (2 : Int)) + (Lx / (2 : Int)))
+def nonsep_per_crop_y (Ny : Int) : Int := (Ny / (2 : Int))
+def nonsep_per_crop_x (Nx : Int) : Int := (Nx / (2 : Int))
+def nonsep_p1 (out1 : Int) (Ny : Int) (Ly : Int) : Int := ((((2 : Int) * (out1 - (1 : Int))) - Ny) + Ly)
+def nonsep_p2 (out2 : Int) (Nx : Int) (Lx : Int) : Int := ((((2 : Int) * (out2 - (1 : Int))) - Nx) + Lx)
+def nonsep_zero_pad_y (p1 : Int) : Int := (p1 / (2 : Int))
+def nonsep_zero_pad_x (p2 : Int) : Int := (p2 / (2 : Int))
+def nonsep_ext_before_x (p2 : Int) : Int := (p2 / (2 : Int))
+def nonsep_ext_after_x (p2 : Int) : Int := ((p2 + (1 : Int)) / (2 : Int))
+def nonsep_ext_before_y (p1 : Int) : Int := (p1 / (2 : Int))
+def nonsep_ext_after_y (p1 : Int) : Int := ((p1 + (1 : Int)) / (2 : Int))
+def nonsep_syn_fold_width_y (Ly : Int) (Ny : Int) : Int := (Ly - (2 : Int))
+def nonsep_syn_fold_from_y (Ly : Int) (Ny : Int) : Int := ((2 : Int) * Ny)
+def nonsep_syn_fold_to_y (Ly : Int) (Ny : Int) : Int := ((((2 : Int) * Ny) + Ly) - (2 : Int))
+def nonsep_syn_fold_width_x (Lx : Int) (Nx : Int) : Int := (Lx - (2 : Int))
+def nonsep_syn_fold_from_x (Lx : Int) (Nx : Int) : Int := ((2 : Int) * Nx)
+def nonsep_syn_fold_to_x (Lx : Int) (Nx : Int) : Int := ((((2 : Int) * Nx) + Lx) - (2 : Int))
+def nonsep_syn_crop_y (Ny : Int) : Int := ((2 : Int) * Ny)
+def nonsep_syn_crop_x (Nx : Int) : Int := ((2 : Int) * Nx)
+def nonsep_syn_shift_y (Ly : Int) : Int := ((1 : Int) - (Ly / (2 : Int)))
+def nonsep_syn_shift_x (Lx : Int) : Int := ((1 : Int) - (Lx / (2 : Int)))
+def nonsep_syn_pad_y (Ly : Int) : Int := (Ly - (2 : Int))
+def nonsep_syn_pad_x (Lx : Int) : Int := (Lx - (2 : Int))
+def atrous_L2 (L : Int) (dilation : Int) : Int := ((L * dilation) / (2 : Int))
+def atrous_before_H (L2 : Int) (dilation : Int) : Int := (L2 - dilation)
+def atrous_after_H (L2 : Int) (dilation : Int) : Int := L2
+def atrous_before_W (L2 : Int) (dilation : Int) : Int := (L2 - dilation)
+def atrous_after_W (L2 : Int) (dilation : Int) : Int := L2
 
 end WV.Gen.Sizes
